@@ -197,6 +197,7 @@ example : ∃ g1 w, addBuild g0 b0 = .ok (g1, w) ∧ g1.files[0]? = some ⟨[97]
   refine ⟨_, _, by simp [addBuild, claimOuts, g0, b0, modFile]; exact ⟨rfl, rfl⟩, ?_⟩
   simp
 
+open N2V.Eval in
 /-- **A second statement for the same output is rejected by the loader** (statement level): when
     the paths of a `build` statement have been evaluated and interned and one of its outputs is a
     file that an earlier statement (of this or of any included file - the graph is shared)
